@@ -380,7 +380,8 @@ def gen_history(rng, thorough=False):
     k = rng.randrange(1, 4)
     n = rng.randrange(k, min(10, max(k, S + 2)) + 1)
     fmt = rng.choice("sm")
-    steps = [("create", rng.randbytes(rng.choice([0, 5, 20, 40])).hex())]
+    big = "big:%d:%d" % (rng.choice([9000, 20000]), rng.randrange(48, 58))
+    steps = [("create", big if rng.random() < 0.2 else rng.randbytes(rng.choice([0, 5, 20, 40])).hex())]
     npub = rng.randrange(1, 6)
     pubs = 1
     after_partial = False
@@ -419,12 +420,26 @@ def gen_history(rng, thorough=False):
             steps.append(("stale", rng.randrange(0, pubs), sorted(rng.sample(range(S), rng.randrange(1, S + 1)))))
         elif r < 0.75:
             steps.append(("del", sorted(rng.sample(range(S), rng.randrange(1, S + 1))), rng.randrange(0, n)))
+        elif r < 0.82 and S >= 3:
+            steps.append(("away-pub", big if rng.random() < 0.7 else rng.randbytes(rng.choice([7, 20])).hex(),
+                          sorted(rng.sample(range(min(S, 2 * k + 2)), rng.randrange(1, min(S - 1, k + 1) + 1)))))
+            pubs += 1
+            if rng.random() < 0.7:
+                steps.append(("read-flaky", {str(rng.randrange(0, min(S, 2 * k + 2))): 1 for _ in range(rng.randrange(1, 3))}))
         else:
             down = sorted(rng.sample(range(S), rng.randrange(0, min(S, 4) + 1))) if rng.random() < 0.5 else []
             steps.append(("read", down))
     steps.append(("read", []))
     return {"servers": S, "k": k, "n": n, "fmt": fmt, "sched": rng.randrange(1 << 30),
             "policy": rng.choice(["random", "random", "fifo", "lifo"]), "steps": steps}
+
+
+def content_of(field):
+    """step data: hex, or `big:<size>:<byte>` (shares too large for the survey's read cache: blocks must be fetched)"""
+    if isinstance(field, str) and field.startswith("big:"):
+        _b, size, byte = field.split(":")
+        return (bytes([int(byte)]) + b"-") * (int(size) // 2)
+    return bytes.fromhex(field)
 
 
 class Hooks:
@@ -657,12 +672,14 @@ def run_history(ctx, h, acc):
                     hooks.op_start = len(hooks.final_maps)
                     if kind == "create":
                         node = rt.wait(writer.create_mutable_file(
-                            MutableData(bytes.fromhex(step[1])), version=MDMF_VERSION if h["fmt"] == "m" else SDMF_VERSION,
+                            MutableData(content_of(step[1])), version=MDMF_VERSION if h["fmt"] == "m" else SDMF_VERSION,
                             unique_keypair=mc.keypair()))
                         settle_publishes()
                         my_seqs.append(hooks.publishes[-1]["seqnum"])
                         rnode = reader.create_node_from_uri(node.get_uri())
                         si = node.get_storage_index()
+                        num_of = {g.serverid(i): i for i in range(h["servers"])}
+                        perm = [num_of[srv.get_serverid()] for srv in g.broker.get_servers_for_psi(si)]
                     elif kind == "wfail":
                         wfail = set(step[1])
                     elif kind in ("pub", "update"):
@@ -677,7 +694,7 @@ def run_history(ctx, h, acc):
                         npub = len(hooks.publishes)
                         try:
                             if kind == "pub":
-                                rt.wait(node.overwrite(MutableData(bytes.fromhex(step[1]))))
+                                rt.wait(node.overwrite(MutableData(content_of(step[1]))))
                             else:
                                 mv = rt.wait(node.get_best_mutable_version())
                                 off = min(step[2], mv.get_size())
@@ -705,6 +722,30 @@ def run_history(ctx, h, acc):
                                 else:
                                     ctx.count("grid-writer-did-not-observe-own-previous-version")
                             my_seqs.append(seq)
+                    elif kind == "away-pub":
+                        # the servers at these positions of the file's permuted list are not connected while the writer
+                        # publishes (it places the shares elsewhere); they come back with whatever they held
+                        snaps.append(mc.snapshot_files(g, si))
+                        away = [g.servers[perm[x]] for x in step[2] if x < len(perm)]
+                        for gs in away:
+                            g.broker.servers.remove(gs)
+                        npub = len(hooks.publishes)
+                        try:
+                            rt.wait(node.overwrite(MutableData(content_of(step[1]))))
+                            ctx.count("grid-away-pub-ok")
+                            ok = True
+                        except grid.Stuck:
+                            raise
+                        except Exception as e:
+                            ctx.count("grid-away-pub-error:" + mc.exc_name(e))
+                            ok = False
+                        finally:
+                            for gs in away:
+                                g.broker.servers.append(gs)
+                        settle_publishes()
+                        new = [r for r in hooks.publishes[npub:] if r.get("seqnum") is not None]
+                        if ok and new:
+                            my_seqs.append(new[-1]["seqnum"])
                     elif kind == "overwrite-then-modify":
                         snaps.append(mc.snapshot_files(g, si))
                         npub = len(hooks.publishes)
@@ -778,8 +819,23 @@ def run_history(ctx, h, acc):
                         for (i, sh, p) in g.share_files(si):
                             if i in step[1] and sh == step[2]:
                                 os.unlink(p)
-                    elif kind == "read":
-                        set_down(step[1])
+                    elif kind in ("read", "read-flaky"):
+                        if kind == "read":
+                            set_down(step[1])
+                        else:
+                            # servers (by position in the permuted list) that answer their first n slot_readv requests
+                            # -- the survey -- and fail every later one -- the block fetch
+                            for pos, nok in step[1].items():
+                                if int(pos) >= len(perm):
+                                    continue
+
+                                def fault(methname, args, kwargs, _n=nok, _st={"reads": 0}):
+                                    if methname == "slot_readv":
+                                        _st["reads"] += 1
+                                        if _st["reads"] > _n:
+                                            return "error"
+                                    return None
+                                g.wrappers[perm[int(pos)]].fault = fault
                         nfinal = len(hooks.final_maps)
                         try:
                             data = rt.wait(rnode.download_best_version())
@@ -789,7 +845,11 @@ def run_history(ctx, h, acc):
                         except Exception as e:
                             data, err = None, mc.exc_name(e)
                         set_down([])
+                        for i in g.wrappers:
+                            g.wrappers[i].fault = None
                         finals = hooks.final_maps[nfinal:]
+                        if kind == "read-flaky":
+                            ctx.count("grid-read-flaky-surveys:%d" % min(len(finals), 3))
                         ctx.count("grid-read:" + (err or "ok"))
                         if finals:
                             mode, smap, st = finals[-1]
@@ -812,7 +872,8 @@ def run_history(ctx, h, acc):
                                         older = [key for key, c in registry.items() if c == data and key[0] < top]
                                         ctx.violation("download_best_version returned %r, the highest recoverable seqnum %d "
                                                       "in its servermap holds %r" % (data[:20], top, want[:20]), case,
-                                                      "read-returns-older-version" if older else "read-wrong-content",
+                                                      ("read-rolled-back-after-retrieve-failure" if kind == "read-flaky" else
+                                                       "read-returns-older-version") if older else "read-wrong-content",
                                                       detail={"step": idx})
                             elif err == "UnrecoverableFileError" and rec:
                                 ctx.violation("UnrecoverableFileError although the servermap shows a recoverable version",
@@ -924,6 +985,14 @@ HISTORY_CORPUS = [
      "steps": [("create", "0011"), ("overwrite-then-modify", "2233", "ee", [2]), ("read", [])]},
     {"servers": 3, "k": 1, "n": 3, "fmt": "s", "sched": 26, "policy": "fifo",
      "steps": [("create", "0011"), ("overwrite-then-modify", "2233", "ee", [2]), ("read", [])]},
+    # C11-d: v1 on p0..p3; v2 written while p0, p1 are away (p2..p5); p0, p1 return stale; the reader's survey is
+    # satisfied by p0..p3; p3 answers the survey and fails every later read; shares too big for the survey cache
+] + [
+    {"servers": 6, "k": 2, "n": 4, "fmt": f, "sched": sd, "policy": pol,
+     "steps": [("create", "big:20000:49"), ("away-pub", "big:20000:50", [0, 1]), ("read-flaky", {"3": 1}), ("read", [])]}
+    for (f, sd, pol) in [("s", 31, "fifo"), ("m", 32, "fifo"), ("s", 33, "lifo"), ("s", 34, "random"), ("m", 35, "random"),
+                         ("s", 36, "random")]
+] + [
     # C11-a on the grid: the first 2k servers of the permuted list hold an older recoverable version and one share of
     # the newest (covered deterministically by _upd_corpus; this history exercises the same rule end to end)
     {"servers": 8, "k": 2, "n": 4, "fmt": "s", "sched": 27, "policy": "fifo",
